@@ -1,0 +1,37 @@
+//go:build verif
+
+// Verification hooks (add-only, compiled only with -tags verif): the harness lives outside this
+// module and cannot import sm2/internal, so the internal API is re-exported here.
+package sm2
+
+import (
+	"github.com/bilibili/smgo/sm2/internal"
+	"github.com/bilibili/smgo/sm2/internal/fiat"
+)
+
+type VerifPoint = internal.SM2Point
+type VerifElement = fiat.SM2Element
+type VerifScalarElement = fiat.SM2ScalarElement
+
+var (
+	VerifNewPoint             = internal.NewSM2Point
+	VerifNewGenerator         = internal.NewSM2Generator
+	VerifNewFromXY            = internal.NewFromXY
+	VerifFromCoords           = internal.VerifFromCoords
+	VerifScalarBaseMult       = internal.ScalarBaseMult
+	VerifScalarBaseMultScheme = internal.VerifScalarBaseMultScheme
+	VerifScalarMult           = internal.ScalarMult
+	VerifScalarMixedMult      = internal.ScalarMixedMult_Unsafe
+	VerifCheckOnCurve         = internal.Sm2CheckOnCurve
+	VerifTables               = internal.VerifTables
+	VerifExtractHigherBits    = internal.VerifExtractHigherBits
+	VerifExtractLowerBits     = internal.VerifExtractLowerBits
+	VerifGetZBytes            = internal.GetZBytes
+	VerifGetN                 = internal.GetN
+	VerifFieldOp              = fiat.VerifFieldOp
+	VerifScalarOp             = fiat.VerifScalarOp
+	VerifFieldToBytes         = fiat.VerifFieldToBytes
+	VerifFieldFromBytes       = fiat.VerifFieldFromBytes
+	VerifScalarToBytes        = fiat.VerifScalarToBytes
+	VerifScalarFromBytes      = fiat.VerifScalarFromBytes
+)
